@@ -224,6 +224,10 @@ def iter1(ctx, pid):
                 if len(args) >= 2 and args[1] != ("call", "trie.utils.nibbles:bytes_to_nibbles", (kb,), ()):
                     after_ok = False
                     why = "successor search key is `%s`, not bytes_to_nibbles(key)" % tstr(args[1])
+    d = f.defaults().get(f.params[1])
+    if not (isinstance(d, ast.Constant) and d.value is None):
+        first_ok = False
+        why = "next() defaults its key to `%s`; without an argument it must mean None (= the smallest key, not the successor of some key)" % (ast.unparse(d) if d is not None else "<required>")
     c = "none-shortcut:NodeIterator.next"
     if not (n_first and n_after):
         ctx.bad(c, f.loc(), "next() lost one of its two searches")
